@@ -289,6 +289,9 @@ func runC05(ctx *core.Ctx) {
 		addApply(ctx, kind, nodes, nil, i%4 == 0)
 	}
 
+	// ------------------------------------------------------------ 2b. the file-system parameter: anchoring of a base file
+	genBase(ctx)
+
 	// ------------------------------------------------------------ 3. malformed stream
 	genMalformed(ctx)
 
